@@ -142,6 +142,33 @@ pub fn check(args: &[String]) -> i32 {
         }
     }
     let mut harness_error = false;
+    // Bounded wait: nothing a worker does may hang the check for ever.
+    let hard_deadline = t0 + std::time::Duration::from_millis(deadline_ms) + std::time::Duration::from_secs(120);
+    loop {
+        let mut all_done = true;
+        for (_, _, c1, c2) in det.iter_mut() {
+            all_done &= matches!(c1.try_wait(), Ok(Some(_))) & matches!(c2.try_wait(), Ok(Some(_)));
+        }
+        for (_, c) in children.iter_mut() {
+            all_done &= matches!(c.try_wait(), Ok(Some(_)));
+        }
+        if all_done {
+            break;
+        }
+        if std::time::Instant::now() > hard_deadline {
+            println!("HARNESS-ERROR batch did not finish within its time limit; killing workers");
+            for (_, _, c1, c2) in det.iter_mut() {
+                let _ = c1.kill();
+                let _ = c2.kill();
+            }
+            for (_, c) in children.iter_mut() {
+                let _ = c.kill();
+            }
+            harness_error = true;
+            break;
+        }
+        std::thread::sleep(std::time::Duration::from_millis(50));
+    }
     let mut det_report = vec![];
     for (b, k, c1, c2) in det {
         let o1 = c1.wait_with_output();
